@@ -217,7 +217,7 @@ func execCbcsAvcRanges(a []string) string {
 // length fields, NAL headers, non-video units and slice headers are clear; what is protected in a unit runs to the
 // unit's end; a video unit longer than 127 bytes is protected from exactly the end of its slice header.
 // hdrOf = the independent slice header size of a video unit (-1: not known, nothing demanded about its header).
-func checkCbcsShape(c *Ctx, s []byte, rs []mp4.SubSamplePattern, hdrOf func([]byte) int, req string) {
+func checkCbcsShape(c *Ctx, codec string, s []byte, rs []mp4.SubSamplePattern, hdrOf func([]byte) int, req string) {
 	tot := 0
 	for _, r := range rs {
 		tot += int(r.BytesOfClearData) + int(r.BytesOfProtectedData)
@@ -249,7 +249,7 @@ func checkCbcsShape(c *Ctx, s []byte, rs []mp4.SubSamplePattern, hdrOf func([]by
 				return
 			}
 		}
-		if mask[start] {
+		if mask[start] || (codec == "hevc" && n >= 2 && mask[start+1]) { // HEVC: two-byte NAL unit header
 			c.Fail("C07-header-protected", "a NAL header byte is protected", req, showRanges(rs), "")
 			return
 		}
@@ -264,6 +264,9 @@ func checkCbcsShape(c *Ctx, s []byte, rs []mp4.SubSamplePattern, hdrOf func([]by
 			}
 		}
 		video := s[start]&0x1f >= 1 && s[start]&0x1f <= 5
+		if codec == "hevc" {
+			video = (s[start]>>1)&0x3f <= 31 // VCL NAL unit types (H.265 Table 7-1)
+		}
 		if !video {
 			if firstProt >= 0 {
 				c.Fail("C07-nonvideo-protected", "a non-video NAL unit is protected", req, showRanges(rs), "")
@@ -306,7 +309,7 @@ func genCbcsRanges(c *Ctx, which string) {
 			c.Fail("C07-ranges-error", "protect ranges of a well-formed sample fail", req, ans, "")
 			continue
 		}
-		checkCbcsShape(c, s, parseRanges(ans), t.hdrOf, req)
+		checkCbcsShape(c, "avc", s, parseRanges(ans), t.hdrOf, req)
 	}
 }
 
